@@ -17,5 +17,11 @@ CONSTANTS Names = {"n1","n2","n3","n4","n5","n6"}
           E = 18
           ChainMode = TRUE
           Prefix = 6
+          NB = 0
+          MinB = 0
+          PreC = 0
+          PostC = 0
+          SimMode = FALSE
+          Procs = {}
           Devs = {}
 
